@@ -304,9 +304,8 @@ pub fn analyze(case: &Case) -> Analysis {
         BodyMode::Unspecified(w) => query_unspec = Some(w.clone()),
         BodyMode::BadCharset(_) => query_kinds.push(Kind::InvalidBodyEncoding),
         BodyMode::FoldUtf8 => {
-            if req.body.0.starts_with(&[0xEF, 0xBB, 0xBF]) {
-                query_unspec = Some("form body starts with a byte-order mark".into());
-            }
+            // (a UTF-8 byte-order mark is three bytes of valid UTF-8: U+FEFF, part of the first parameter's name --
+            // "no body parameter is dropped", "every body byte is covered by the signature")
             match std::str::from_utf8(&req.body.0) {
                 Err(_) => query_kinds.push(Kind::InvalidBodyEncoding),
                 Ok(s) => match parse_query(s.as_bytes()) {
